@@ -15,11 +15,13 @@ MANIFEST = {
     "text": "Coq theorem lockset_sound (interleaving semantics of any number of threads over Lock/Unlock/RLock/RUnlock/read/"
             "write with mutex and RW-lock state; invariant proof): a program set that passes the executable check `disciplined` "
             "has no reachable state, in ANY schedule, with two threads about to perform conflicting accesses.  On every run a "
-            "Go-AST translator (extractor/, go/packages + go/types) re-extracts from the working tree, for 63 entry points of "
-            "pkg/ipam/floatingip, schedulerplugin, ipam/crd, galaxy+api/cniutil, network/portmapping and policy, every access to "
+            "Go-AST translator (extractor/, go/packages + go/types) re-extracts from the working tree, for 69 entry points of "
+            "pkg/ipam/floatingip, schedulerplugin, ipam/crd, ipam/api (REST controllers), galaxy+api/cniutil, network/portmapping and policy, every access to "
             "42 tracked shared locations with the locks syntactically held (calls followed across these packages to depth 9, "
             "closures and deferred calls replayed, thread-local objects tracked until published); coqc evaluates `disciplined "
-            "generated` by vm_compute and proves galaxy_race_free := lockset_sound .. generated .. at run time",
+            "generated` by vm_compute and proves galaxy_race_free := lockset_sound .. generated .. at run time. Objects handed out "
+            "by an informer cache (Get/List/ByIndex of a ...Lister, Indexer or Store) are tracked as read-only shared objects: any "
+            "store through one (field, element, whole value, mutator method) fails the discipline and is handed to the race detector",
     "note": "the theorem is fully proved (no axioms); the TRANSLATOR is syntactic and trusted (its output is what Coq checks): "
             "memory reached through interfaces/reflection and state outside the tracked list (config.go) is not covered, function "
             "literals passed to opaque callees are assumed to run synchronously, entry-point ownership assumptions are listed in "
@@ -55,6 +57,8 @@ ASSUMPTIONS = [
     "publication is safe: an immutable-after-publication field is written only while the object is thread-local and the "
     "object becomes shared through a lock-protected table (or before the server starts), which orders the writes before "
     "every later read",
+    "informer caches: what a Lister/Indexer/Store method returns is the cache's own object (client-go contract); the results of "
+    "DeepCopy and of clientset calls are private copies",
     "abstraction: each recorded access becomes the mini-program `acquire held locks; access; release` of the Coq model; "
     "the real code holds the locks longer, which only removes interleavings",
 ]
@@ -147,6 +151,33 @@ def run(ctx):
     for d in data["diagnostics"][:10]:
         ctx.violation("correspondence", "translator: " + d, {"diagnostic": d, "all": data["diagnostics"]}, found=False,
                       theorem="translator consistency checks", tags=["c19-diag"])
+    # objects handed out by an informer cache (Lister / Indexer / Store methods) are the cache's own: shared with every other
+    # reader and the informer goroutine, guarded by no lock of galaxy - a store through one fails the discipline outright
+    cache_writes = data.get("cache_writes") or []
+    ctx.cov["informer_cache_writes"] = len(cache_writes)
+    ctx.cov["obligations"] += 1
+    if not cache_writes:
+        ctx.cov["discharged"] += 1
+    cw_binary = None
+    for cw in cache_writes[:4]:
+        entry = cw["via"].split(":")[0]
+        what = ("%s stores %s at %s through an object handed out by %s: that is the informer cache's own object, read without "
+                "a lock by every other holder of the lister (reached via %s)" % (entry, cw["what"], cw["pos"], cw["from"], cw["via"]))
+        replay = {"informer_cache_write": cw, "how": "bin/check C19 --replay <this file>"}
+        found = False
+        if cw_binary is None:
+            cw_binary = race_build(ctx) or ""
+        if cw_binary:
+            case, reports, res = run_detector(cw_binary, entry, ["FloatingIPPlugin.Filter", entry], 150 if ctx.quick else 1000)
+            replay["ghrace_case"] = case
+            if reports:
+                hits = [r for r in reports if report_matches(r, cw)]
+                replay["race_detector_reports"] = (hits or reports)[:3]
+                replay["race_detector_report_count"] = len(reports)
+                found = bool(hits)
+            else:
+                replay["race_detector"] = "silent (%s)" % res
+        ctx.violation("monitor", what, replay, found=found, theorem="disciplined generated = true (informer-cache objects are read-only)")
     bad, out = locksgen.bad_accesses(data)
     if bad is None:
         ctx.violation("proof", "Coq could not evaluate the discipline on the generated program", {"output": out[-3000:]},
